@@ -18,11 +18,11 @@ def dirderiv(f, x, v, eps):
         return float((f(x + eps * v) - f(x - eps * v)) / (2 * eps))
 
 
-def oracle_layer_grad(ck, order, biort, qshift, b, colour, x, zero_input=False):
+def oracle_layer_grad(ck, order, biort, qshift, b, colour, x, zero_input=False, mode='symmetric'):
     from pytorch_wavelets import ScatLayer, ScatLayerj2
-    desc = 'gradient of ScatLayer%s biort=%s magbias=%g colour=%s shape=%s%s' % ('j2' if order == 2 else '', biort, b, bool(colour), tuple(x.shape), ' (all-zero input)' if zero_input else '')
-    replay = {'oracle': 'layer_grad', 'order': order, 'biort': biort, 'qshift': qshift, 'b': b, 'colour': colour, 'x': arr_json(x), 'zero': zero_input}
-    mod = ScatLayer(biort=biort, magbias=b, combine_colour=bool(colour)) if order == 1 else \
+    desc = 'gradient of ScatLayer%s biort=%s mode=%s magbias=%g colour=%s shape=%s%s' % ('j2' if order == 2 else '', biort, mode, b, bool(colour), tuple(x.shape), ' (all-zero input)' if zero_input else '')
+    replay = {'oracle': 'layer_grad', 'order': order, 'biort': biort, 'qshift': qshift, 'b': b, 'colour': colour, 'x': arr_json(x), 'zero': zero_input, 'mode': mode}
+    mod = ScatLayer(biort=biort, mode=mode, magbias=b, combine_colour=bool(colour)) if order == 1 else \
         ScatLayerj2(biort=biort, qshift=qshift, magbias=b, combine_colour=bool(colour))
     xt = T(x).requires_grad_(True)
     try:
@@ -106,7 +106,8 @@ def oracle(ck, extended):
         if order == 2:
             H = rng.choice([8, 16, 5, 11]); W = rng.choice([8, 16, 6])
         x = npr.standard_normal((1, C, H, W))
-        rt.guard(ck, oracle_layer_grad, ck, order, biort, qshift, b, colour, x)
+        # the first-order layer also accepts mode='zero' (the second-order one only implements 'symmetric')
+        rt.guard(ck, oracle_layer_grad, ck, order, biort, qshift, b, colour, x, False, 'zero' if (order == 1 and rng.random() < 0.4) else 'symmetric')
         if it % 3 == 0:
             rt.guard(ck, oracle_layer_grad, ck, order, biort, qshift, b, colour, np.zeros_like(x), zero_input=True)
 
@@ -138,7 +139,7 @@ def replay(ck, path):
         print('replay file names no failing input: %s' % d.get('broken_obligations'))
         return 1
     if f['oracle'] == 'layer_grad':
-        oracle_layer_grad(ck, f['order'], f['biort'], f['qshift'], f['b'], f['colour'], arr_from(f['x']), f['zero'])
+        oracle_layer_grad(ck, f['order'], f['biort'], f['qshift'], f['b'], f['colour'], arr_from(f['x']), f['zero'], f.get('mode', 'symmetric'))
     else:
         oracle_smoothmag(ck, f['mask'], f['zero'])
     for fl in ck.failures:
